@@ -1,4 +1,5 @@
 import Lean.Data.Json
+import AnonModel.Model.Envelope
 import AnonModel.Model.Verifier
 import AnonModel.Model.VerifierW3C
 import AnonModel.Driver.OpsInterval
@@ -141,8 +142,27 @@ def w3cCredOfJson (j : Json) : Option VerifierW3C.Cred := do
          revRegId := ← fld j "rev_reg_id" >>= optStrOfJson, timestamp := ← fld j "timestamp" >>= optNatOfJson,
          sub := ← fld j "sub" >>= subOfJson }
 
+def envCtxOfJson (j : Json) : Option Envelope.Ctx :=
+  match j.getObjVal? "uri", j.getObjVal? "obj" with
+  | .ok (.str "v11"), _ => some (.uri .v11Base)
+  | .ok (.str "v20"), _ => some (.uri .v20Base)
+  | .ok (.str "di"), _ => some (.uri .dataIntegrity)
+  | .ok u, _ => (natOfJson u).map (fun k => .uri (.other k))
+  | _, .ok k => (natOfJson k).map .obj
+  | _, _ => none
+
+/-- `W3CPresentation::validate().is_ok()`: computed from the envelope the document shows (`env`) when the harness sends it;
+the engine's own flag is then ignored -/
+def validateOkOfJson (j : Json) : Option Bool :=
+  match j.getObjVal? "env" with
+  | .ok e => do
+    let cs ← fld e "ctx" >>= listOfJson envCtxOfJson
+    let ts ← fld e "types" >>= listOfJson strOfJson
+    pure (Envelope.presValid cs ts)
+  | _ => fld j "validate_ok" >>= boolOfJson
+
 def w3cPresentationOfJson (j : Json) : Option VerifierW3C.Presentation := do
-  pure { validateOk := ← fld j "validate_ok" >>= boolOfJson, creds := ← fld j "creds" >>= listOfJson w3cCredOfJson,
+  pure { validateOk := ← validateOkOfJson j, creds := ← fld j "creds" >>= listOfJson w3cCredOfJson,
          presProofOk := ← fld j "pres_proof_ok" >>= boolOfJson, agg := ← fld j "agg" >>= aggOfJson }
 
 def outcomeToJson : Outcome → Json
